@@ -1,6 +1,7 @@
 package simrt
 
 import (
+	"runtime"
 	"sync"
 	"unsafe"
 )
@@ -59,6 +60,34 @@ func RWLock(site int32, m *sync.RWMutex) {
 	if s.cfg.HB {
 		s.hbAcquire(t, s.mtxVC, uintptr(unsafe.Pointer(m)))
 	}
+}
+
+func RWTryLock(site int32, m *sync.RWMutex) bool {
+	s := cur
+	if s == nil {
+		return m.TryLock()
+	}
+	t := s.caller()
+	s.park(gate{kind: gYield, site: site})
+	ok := m.TryLock()
+	if ok && s.cfg.HB {
+		s.hbAcquire(t, s.mtxVC, uintptr(unsafe.Pointer(m)))
+	}
+	return ok
+}
+
+func RWTryRLock(site int32, m *sync.RWMutex) bool {
+	s := cur
+	if s == nil {
+		return m.TryRLock()
+	}
+	t := s.caller()
+	s.park(gate{kind: gYield, site: site})
+	ok := m.TryRLock()
+	if ok && s.cfg.HB {
+		s.hbAcquire(t, s.mtxVC, uintptr(unsafe.Pointer(m)))
+	}
+	return ok
 }
 
 func RWUnlock(site int32, m *sync.RWMutex) {
@@ -200,7 +229,17 @@ func CondWait(site int32, c *sync.Cond) {
 	}
 	s.conds[c] = append(s.conds[c], w)
 	lockerUnlock(site, c.L)
-	s.park(gate{kind: gWait, site: site, cond: func() bool { return w.signalled }})
+	if m := s.parkRaw(t, gate{kind: gWait, site: site, cond: func() bool { return w.signalled }}); m.poison {
+		// teardown while waiting: Wait returns with the lock held in Go, and callers defer the
+		// unlock - take the lock (if it is free) before this goroutine ends
+		switch l := c.L.(type) {
+		case *sync.Mutex:
+			l.TryLock()
+		case *sync.RWMutex:
+			l.TryLock()
+		}
+		runtime.Goexit()
+	}
 	if s.cfg.HB && w.vc != nil {
 		t.vc = vcJoin(t.vc, w.vc)
 	}
